@@ -59,6 +59,8 @@ def shards(tier, seed):
         for si in range(len(SEGS)):
             k = 4 if (ri == 0 or (tier == 'thorough' and ri in (1, 4))) else 3
             out.append((ri, si, k, None))
+    # two roots in ONE process, one nested in the other: names served through the outer root must not open the inner root up
+    out.append(('nested', None, 3, None))
     # seed extension: one more segment spelling joins the universe (all names up to 3 segments containing it)
     extra = ['...', 'root/', '.\\', ' ', '%2e%2e', '..;'][seed % 6]
     out.append((0, None, 3, extra))
@@ -70,7 +72,7 @@ def bounds(tier, seed):
             'max_segments': '4 for root 0, 3 otherwise' if tier == 'quick' else '4 for roots 0, 1 and 4, 3 otherwise'}
 
 
-FLOORS = {'outside': 1000, 'served_200': 50, 'denied_403': 1000, 'missing_404': 100}
+FLOORS = {'nested_root_calls': 1000, 'outside': 1000, 'served_200': 50, 'denied_403': 1000, 'missing_404': 100}
 
 
 # ---- independent normaliser ----------------------------------------------------------------------------------
@@ -99,9 +101,96 @@ def ref_location(root, name, cwd):
     return r, loc, inside
 
 
+NESTED_ROOTS = ['@T/root', '@T/root/sub', '@T/root/sub/']
+
+
+def nested_calls(k=3):
+    """(root, name) calls: everything through the outer root first, then through the roots nested in it"""
+    segs = ['in.txt', 'sub', 's.txt', '.', '..', '', 'root', 'above.txt']
+    names = []
+    for n in range(1, k + 1):
+        for t in itertools.product(segs, repeat=n):
+            names.append('/'.join(t))
+    for root in NESTED_ROOTS:
+        for name in names:
+            yield root, name
+
+
+def run_nested(ss, om, T, upto=None):
+    """replays the call sequence (up to and including index `upto`); returns the first problem as (index, root, name, text)"""
+    opened = []
+    real_open = open
+
+    def rec_open(path, *a, **kw):
+        opened.append(path)
+        return real_open(path, *a, **kw)
+    ss.open = rec_open
+    filemap = {tuple(norm_abs(os.path.join(T, rel), T)): data for rel, data in FILES.items()}
+    n = 0
+    try:
+        for i, (root0, name) in enumerate(nested_calls()):
+            if upto is not None and i > upto:
+                break
+            root = root0.replace('@T', T)
+            del opened[:]
+            resp = ss.static_file(name, root)
+            n += 1
+            data = None
+            if hasattr(resp.body, 'read'):
+                data = resp.body.read()
+                resp.body.close()
+            r, loc, inside = ref_location(root, name, T)
+            exp_file = filemap.get(tuple(loc)) if inside else None
+            bad = None
+            for p in opened:
+                pl = norm_abs(p, T)
+                if not (len(pl) > len(r) and pl[:len(r)] == r):
+                    bad = f'opened {p.replace(T, "@T")!r}, outside the root {root0}'
+            if bad is None and resp.status_code == 200 and (not inside or exp_file is None or data != exp_file):
+                bad = f'200 with {data!r} for a location outside the root {root0} (or not its file)'
+            if bad is None and resp.status_code in (403, 404) and exp_file is not None:
+                bad = f'{resp.status_code} for an existing file inside {root0}'
+            if bad:
+                return n, (i, root0, name, bad)
+        return n, None
+    finally:
+        try:
+            del ss.open
+        except AttributeError:
+            pass
+
+
+def work_nested(res):
+    om = sut.load(fresh=True)
+    ss = sut.sub('static_stream')
+    T = make_tree()
+    old_cwd = os.getcwd()
+    os.chdir(T)
+    try:
+        om.request.__init__({'REQUEST_METHOD': 'GET', 'PATH_INFO': '/', 'wsgi.input': None})
+        n, prob = run_nested(ss, om, T)
+        res['states'] += n
+        res['transitions'] += n
+        res['execs'] += n
+        res['counters']['nested_root_calls'] += n
+        res['outcomes'].add('nested roots ok' if prob is None else 'nested roots ESCAPE')
+        if prob:
+            i, root0, name, bad = prob
+            core.add_violation(res, {'nested_upto': i, 'root': root0, 'name': name},
+                               f'call #{i} static_file({name!r}, {root0!r}) after the calls through the other roots: {bad}', sig='escape:nested-roots')
+        core.add_sample(res, {'roots_in_one_process': NESTED_ROOTS, 'calls': n})
+    finally:
+        os.chdir(old_cwd)
+        shutil.rmtree(T, ignore_errors=True)
+        sut.load(fresh=True)
+    return res
+
+
 def work(spec):
     ri, si, k, extra = spec
     res = core.new_result()
+    if ri == 'nested':
+        return work_nested(res)
     om = sut.load()
     ss = sut.sub('static_stream')
     T = make_tree()
@@ -200,6 +289,24 @@ def work(spec):
 
 
 def replay(case):
+    if 'nested_upto' in case:
+        om = sut.load(fresh=True)
+        ss = sut.sub('static_stream')
+        T = make_tree()
+        old_cwd = os.getcwd()
+        os.chdir(T)
+        try:
+            om.request.__init__({'REQUEST_METHOD': 'GET', 'PATH_INFO': '/', 'wsgi.input': None})
+            n, prob = run_nested(ss, om, T, case['nested_upto'])
+            if prob is None:
+                return None
+            i, root0, name, bad = prob
+            return (f'{i} static_file calls through the roots {NESTED_ROOTS[:NESTED_ROOTS.index(root0) + 1]} in one process, then '
+                    f'static_file({name!r}, {root0!r}): {bad}')
+        finally:
+            os.chdir(old_cwd)
+            shutil.rmtree(T, ignore_errors=True)
+            sut.load(fresh=True)
     om = sut.load()
     ss = sut.sub('static_stream')
     T = make_tree()
